@@ -426,3 +426,27 @@ def run(prog, rep, val_ok=True, only=None, floor=40):
     rep.extra['mbt_pairs'] = len(m.reports)
     rep.extra['mbt_functions_analysed'] = len(set(k[0] for k in m.memo))
     return rule
+
+
+def run_replace_dups(prog, rep):
+    """BaseTagHDF5::references(vector): the new list is checked for an array named twice before the old references are removed
+    (linking the same array twice is refused by libhdf5 - after the removal)"""
+    from ..sem import Sem, term, unwrap, real_args
+    rule = rep.rule('R-REPLACE-DUP', 'BaseTagHDF5::references(vector) refuses a list that names an array twice before it removes anything', floor=1)
+    fs = [f for f in prog.fns('nix::hdf5::BaseTagHDF5::references') if f.body is not None and f.params and 'vector' in f.params[0]['type']]
+    if len(fs) != 1:
+        raise AnalysisBroken('R-REPLACE-DUP: BaseTagHDF5::references(vector) not found')
+    f = fs[0]
+    rem = [c for c in f.calls() if (c.callee or {}).get('name') == 'removeReference']
+    if not rem:
+        raise AnalysisBroken('R-REPLACE-DUP: the removal loop was not found')
+    ok = False
+    for i in f.walk():
+        if i.k == 'if' and i.id < rem[0].id and i.c[2] is not None and i.c[3] is not None and any(x.k == 'throw' for x in i.c[3].walk()):
+            cs = i.c[2]
+            ins = [c for c in cs.walk() if c.k == 'call' and (c.callee or {}).get('name') in ('insert', 'count', 'find', 'emplace') and 'set' in ((c.callee or {}).get('cls') or '')]
+            if ins and any(a.k in ('rangefor', 'for') for a in i.ancestors()):
+                ok = True
+    rule.check(ok, 'BaseTagHDF5::references|no-duplicates', rep.where(rem[0]), f.label(), 'a repeated id in the new list throws before the removal loop',
+               'the old references are removed before anything tests the new list for an array named twice: the second link fails in libhdf5 and the call throws with the old references gone')
+    return rule
